@@ -347,7 +347,67 @@ fn escape_roundtrip(ctx: &mut Ctx, family: &str, idx: u64, s: &str) {
     }
 }
 
+/// the public conversion helpers and InstanceInformation builders used to assemble announcements
+fn helper_case(ctx: &mut Ctx, idx: u64) {
+    use simple_mdns::conversion_utils::{hashmap_to_txt, ip_addr_to_resource_record, port_to_srv_record, socket_addr_to_srv_and_address};
+    let mut r = ctx.rng("helpers", idx);
+    let name = Name::new("inst._svc._tcp.local").unwrap();
+    let ip: IpAddr = if r.bool() { IpAddr::V4(Ipv4Addr::new(r.u8(), r.u8(), r.u8(), r.u8())) } else { IpAddr::V6(Ipv6Addr::from(((r.next() as u128) << 64) | r.next() as u128)) };
+    let port = r.int(16) as u16;
+    let ttl = r.int(32) as u32;
+    ctx.case(true, fnv(format!("{:?}{}{}", ip, port, ttl).as_bytes()) ^ 0x15AA);
+    let case = || json!({"family": "helpers", "idx": idx, "ip": ip.to_string(), "port": port, "ttl": ttl});
+    let res = monitor::guard(|| {
+        let a = ip_addr_to_resource_record(&name, ip, ttl);
+        let s = port_to_srv_record(&name, port, ttl);
+        let (s2, a2) = socket_addr_to_srv_and_address(&name, std::net::SocketAddr::new(ip, port), ttl);
+        let mut attrs = HashMap::new();
+        attrs.insert("k".to_string(), Some(format!("v{}", port)));
+        attrs.insert("flag".to_string(), None);
+        let t = hashmap_to_txt(&name, attrs.clone(), ttl).map_err(|e| e.to_string())?;
+        let info = InstanceInformation::new("inst".into()).with_socket_address(std::net::SocketAddr::new(ip, port)).with_port(port.wrapping_add(1));
+        let socks: HashSet<std::net::SocketAddr> = info.get_socket_addresses().collect();
+        let want_socks: HashSet<std::net::SocketAddr> = [std::net::SocketAddr::new(ip, port), std::net::SocketAddr::new(ip, port.wrapping_add(1))].into_iter().collect();
+        let mut probs: Vec<&str> = Vec::new();
+        let addr_ok = |rr: &ResourceRecord| match (&rr.rdata, ip) {
+            (RData::A(x), IpAddr::V4(v4)) => x.address == u32::from_be_bytes(v4.octets()),
+            (RData::AAAA(x), IpAddr::V6(v6)) => x.address == u128::from_be_bytes(v6.octets()),
+            _ => false,
+        };
+        let srv_ok = |rr: &ResourceRecord| matches!(&rr.rdata, RData::SRV(x) if x.port == port && x.priority == 0 && x.weight == 0 && x.target == name);
+        for rr in [&a, &a2] {
+            if !(addr_ok(rr) && rr.name == name && rr.class == CLASS::IN && rr.ttl == ttl && !rr.cache_flush) { probs.push("address-record"); }
+        }
+        for rr in [&s, &s2] {
+            if !(srv_ok(rr) && rr.name == name && rr.class == CLASS::IN && rr.ttl == ttl) { probs.push("srv-record"); }
+        }
+        match &t.rdata {
+            RData::TXT(x) if x.attributes() == attrs && t.name == name && t.ttl == ttl => {}
+            _ => probs.push("txt-record"),
+        }
+        if socks != want_socks { probs.push("socket-addresses"); }
+        Ok::<Vec<&str>, String>(probs)
+    });
+    match res {
+        Err(pn) => ctx.panic_violation("conversion helpers", &pn, case()),
+        Ok(Err(e)) => ctx.violation("into-records", "conversion-helper-failed", e, case()),
+        Ok(Ok(probs)) => {
+            if let Some(pb) = probs.first() {
+                ctx.violation("into-records", &format!("conversion-helper-wrong:{}", pb), format!("conversion helper produced a wrong record: {:?}", probs), case());
+            } else {
+                ctx.count("conversion_helper_cases_ok");
+            }
+        }
+    }
+}
+
 pub fn run(ctx: &mut Ctx) {
+    let nhp = if ctx.slow_tool { 6 } else { ctx.tier.pick(20_000u64, 500_000u64) };
+    for idx in 0..nhp {
+        if ctx.take("helpers", idx) {
+            helper_case(ctx, idx);
+        }
+    }
     let n = if ctx.slow_tool { 12 } else { ctx.tier.pick(40_000u64, 2_000_000u64) };
     for idx in 0..n {
         if ctx.take("history", idx) {
